@@ -278,3 +278,20 @@ def run(prog, chk):
             r8.ok(fn.key, "%d may-fail call sites; CIF_MEMORY_ERROR is passed on (or becomes CIF_ERROR)" % len(it.sites))
     if n8 < 15:
         raise Broken("only %d functions with may-fail callees" % n8)
+
+    r9 = chk.rule("R9-release-sees-initialised-fields", "a handle obtained from malloc is passed to its release function only after every "
+                  "field that function reads has been assigned on every path (out-parameters handed to a callee that may fail do "
+                  "not count)", primary=False, floor=10)
+    if memrules.release_sees_initialised(prog, r9) < 10:
+        raise Broken("fewer than 10 (fresh handle, release call) pairs found")
+
+    r10 = chk.rule("R10-uthash-fatal-recovery", "no failure handler reached from a uthash insertion that ran out of memory walks the table "
+                   "(or hands it back to the caller): uthash 1.9.9 links the element before allocating and cannot be unwound",
+                   primary=False, floor=4)
+    if memrules.uthash_fatal_recovery(prog, r10) < 4:
+        raise Broken("fewer than 4 functions with a re-defined uthash_fatal found")
+
+    r11 = chk.rule("R11-out-parameter-not-dangling", "a function that releases `*out` stores into `*out` again before returning",
+                   primary=False, floor=1)
+    if memrules.out_param_not_dangling(prog, r11) < 1:
+        raise Broken("no release of an out-parameter's referent found (expected cif_packet_create)")
